@@ -1345,12 +1345,12 @@ def gen_cases(rng, tier, scale=1.0):
         cases.append(c)
 
     for sname in SER_SHAPES:
-        add_ops("E", sname, ["construct", "deserialize"], max_pre=2, cap=80 if quick else 400)
+        add_ops("E", sname, ["construct", "deserialize"], max_pre=2, cap=80 if quick else 300)
         if not quick or rng.random() < 0.5:
             add_ops("E", sname, [rng.choice(["setattr", "construct", "deserialize"]) for _ in range(2)], max_pre=max_pre,
                     cap=60 if quick else 300)
         if not quick:
-            add_ops("E", sname, ["deserialize", "deserialize", "construct"], max_pre=2, cap=300)
+            add_ops("E", sname, ["deserialize", "deserialize", "construct"], max_pre=2, cap=200)
     for sname in (rng.sample(SER_SHAPES, 3) if quick else SER_SHAPES):
         add_ops("B", sname, [rng.choice(["construct", "deserialize", "serialize", "setattr"]) for _ in range(2)],
                 max_pre=max_pre, nsched=20 if quick else 60)
@@ -1361,12 +1361,12 @@ def gen_cases(rng, tier, scale=1.0):
             [["deserialize", "deserialize"], ["serialize", "deserialize"], ["serialize", "serialize"],
              ["construct", "deserialize"], ["deserialize", "serialize", "deserialize"]]
         for ops in mixes:
-            add_ops("B", sname, ops, max_pre=max_pre, nsched=20 if quick else 100)
+            add_ops("B", sname, ops, max_pre=max_pre, nsched=20 if quick else 50)
         if sname in cold_e:
             # exhaustively at every line of the functions that fill a module-level cache (translator rows); the
             # serialization and the deserialization side have separate caches: same-direction pairs
-            add_ops("E", sname, ["deserialize", "deserialize"], max_pre=1 if quick else 2, cap=400, **{"yield": "sitelines"})
-            add_ops("E", sname, ["serialize", "serialize"], max_pre=1 if quick else 2, cap=400, **{"yield": "sitelines"})
+            add_ops("E", sname, ["deserialize", "deserialize"], max_pre=1 if quick else 2, cap=400 if quick else 200, **{"yield": "sitelines"})
+            add_ops("E", sname, ["serialize", "serialize"], max_pre=1 if quick else 2, cap=400 if quick else 200, **{"yield": "sitelines"})
     # fixed operation mixes (values still random): cold-cache serialization races, scalar assignment, wrappers
     for sname, ops in CANONICAL_B:
         ths = []
